@@ -26,6 +26,7 @@ type gor struct {
 	wake        chan struct{}
 	top         *frame
 	blockOn     string
+	domain      int
 	panicOrigin string
 	pos         token.Pos
 	fnName      string
@@ -66,6 +67,9 @@ func (s *scheduler) endPath(a *pathAbort) {
 // spawn creates an interpreted goroutine.
 func (s *scheduler) spawn(i *interpreter, fn value, args []value, pos token.Pos) *gor {
 	g := &gor{id: len(s.all), wake: make(chan struct{}, 1), pos: pos}
+	if s.cur != nil {
+		g.domain = s.cur.domain
+	}
 	switch f := fn.(type) {
 	case *ssa.Function:
 		g.fnName = f.String()
